@@ -1245,4 +1245,25 @@ theorem runOpsC_eq_runOps (kidsC : Rat → Entry → List (Rat × Nat)) (fuel : 
       (runOpsC kidsC fuel hinitC ops).h :=
   (runOpsC_eq_runOps' kidsC fuel ops hinitC invC_init).2.1
 
+/-- **Reading the clock matters** (so `loopC` is not `loop` in disguise): two callbacks half a
+threshold apart, each re-inserting itself a quarter later.  Relative to the clock both children land
+at `5/4` (the second callback ran with the clock resting at `1`); relative to their own times at `5/4`
+and `5/4 + eps/2`.  The harness's directed `clockrel` histories are of this shape. -/
+theorem clock_reading_differs :
+    ((loopC everyQuarterOfClock (9/8) 3 twoClose).s.queue.map (·.time) = [5/4, 5/4]) ∧
+    ((loop everyQuarter (9/8) 3 twoClose).s.queue.map (·.time) = [5/4, 5/4 + eps / 2]) := by
+  decide +kernel
+
+/-! ### Round 4 — the hypotheses of the history theorems are decided by the driver -/
+
+/-- the flags `addsfrom_hz=` / `addsfrom_t=` printed by the driver op `hist` (and compared with the
+harness's own classification of the real history) decide the hypothesis `AddsFrom` of
+`history_inv` / `history_inv_weak` / `history_exactly_once` -/
+theorem addsFromB_spec (f : Hist → Rat) (kids : Entry → List (Rat × Nat)) (fuel : Nat) (ops : List Op) :
+    addsFromB f kids fuel hinit ops = true ↔ AddsFrom f kids fuel ops := addsFromB_iff f kids fuel ops
+
+/-- the flag `nofuelout=` decides the hypothesis `NoFuelOut` -/
+theorem noFuelOutB_spec (kids : Entry → List (Rat × Nat)) (fuel : Nat) (ops : List Op) :
+    noFuelOutB kids fuel hinit ops = true ↔ NoFuelOut kids fuel ops := noFuelOutB_iff kids fuel ops
+
 end HcipyVerif.Scheduler
